@@ -1136,3 +1136,262 @@ func (c *Ctx) RuleCacheReader() *Result {
 	}
 	return res
 }
+
+// ---------- hand-written predicates as languages ----------
+
+// textPredicate is a function of the repository of the form func(text) bool whose answer is a boolean
+// combination of tests that are regular: a constant prefix, suffix or substring, "nothing but characters
+// of a constant set" (Trim*(text, set) == "", TrimSpace(text) == "", a byte loop that returns false on
+// the first byte outside a set of constants) and emptiness. atoms are the languages of those tests;
+// eval computes the function's answer from the membership of the text in each of them by running the
+// function's control flow.
+type textPredicate struct {
+	atoms []*rx.Lang
+	eval  func(m []bool) bool
+}
+
+const unicodeSpaceClass = `\t\n\x0b\f\r \x{85}\x{A0}\x{1680}\x{2000}-\x{200a}\x{2028}\x{2029}\x{202f}\x{205f}\x{3000}`
+
+func (c *Ctx) textPredicateOf(fn *ssa.Function) (*textPredicate, string) {
+	if fn == nil || len(fn.Blocks) == 0 || len(fn.Params) != 1 || fn.Signature.Results().Len() != 1 {
+		return nil, "not a function of one text to bool"
+	}
+	if b, ok := fn.Signature.Results().At(0).Type().Underlying().(*types.Basic); !ok || b.Kind() != types.Bool {
+		return nil, "not a function of one text to bool"
+	}
+	par := fn.Params[0]
+	tp := &textPredicate{}
+	atomOf := map[ssa.Value]int{}
+	loopAtom := map[*ssa.BasicBlock]int{}             // header of a byte loop -> atom
+	loopExit := map[*ssa.BasicBlock]*ssa.BasicBlock{} // header -> block after the loop
+	addAtom := func(v ssa.Value, src string) bool {
+		l, err := rx.SearchPattern(src, src)
+		if err != nil {
+			return false
+		}
+		atomOf[v] = len(tp.atoms)
+		tp.atoms = append(tp.atoms, l)
+		return true
+	}
+	allOf := func(set string) string { return `(?s)^[` + classQuote(set) + `]*$` }
+	// the text, possibly trimmed: which set of characters may surround / make up the text for it to be ""
+	emptyAfter := func(v ssa.Value) (string, bool) {
+		v = stripConv(v)
+		if v == ssa.Value(par) {
+			return `(?s)^$`, true
+		}
+		call, ok := v.(*ssa.Call)
+		if !ok || len(call.Call.Args) == 0 || stripConv(call.Call.Args[0]) != ssa.Value(par) {
+			return "", false
+		}
+		f := staticCallee(&call.Call)
+		if f == nil || (objPkgPath(f) != "strings" && objPkgPath(f) != "bytes") {
+			return "", false
+		}
+		switch f.Name() {
+		case "TrimSpace":
+			return `(?s)^[` + unicodeSpaceClass + `]*$`, true
+		case "Trim", "TrimLeft", "TrimRight":
+			if set, ok := constString(stripConv(call.Call.Args[1])); ok && set != "" {
+				return allOf(set), true
+			}
+		}
+		return "", false
+	}
+	var classify func(v ssa.Value) bool
+	classify = func(v ssa.Value) bool {
+		if _, done := atomOf[v]; done {
+			return true
+		}
+		switch x := v.(type) {
+		case *ssa.Const:
+			_, ok := constBool(x)
+			return ok
+		case *ssa.UnOp:
+			return x.Op == token.NOT && classify(x.X)
+		case *ssa.Phi:
+			for _, e := range x.Edges {
+				if !classify(e) {
+					return false
+				}
+			}
+			return true
+		case *ssa.Call:
+			if l, subj, ok := literalTestLang(x); ok && stripConv(subj) == ssa.Value(par) {
+				atomOf[v] = len(tp.atoms)
+				tp.atoms = append(tp.atoms, l)
+				return true
+			}
+		case *ssa.BinOp:
+			if x.Op != token.EQL && x.Op != token.NEQ {
+				return false
+			}
+			// X == "" / len(X) == 0
+			for _, pair := range [][2]ssa.Value{{x.X, x.Y}, {x.Y, x.X}} {
+				if s, ok := constString(stripConv(pair[1])); ok && s == "" {
+					if src, ok := emptyAfter(pair[0]); ok {
+						return addAtom(v, src)
+					}
+				}
+				if k, ok := constInt(pair[1]); ok && k == 0 {
+					if lc, ok := pair[0].(*ssa.Call); ok {
+						if bi, ok := lc.Call.Value.(*ssa.Builtin); ok && bi.Name() == "len" {
+							if src, ok := emptyAfter(lc.Call.Args[0]); ok {
+								return addAtom(v, src)
+							}
+						}
+					}
+				}
+			}
+		}
+		return false
+	}
+	// byte loops: for i := 0; i < len(text); i++ { switch text[i] { case constants: default: return false } }
+	for _, l := range naturalLoops(fn) {
+		iff, ok := l.header.Instrs[len(l.header.Instrs)-1].(*ssa.If)
+		if !ok {
+			return nil, "a loop of the predicate is not a scan over the bytes of the text"
+		}
+		var exit *ssa.BasicBlock
+		for _, sc := range l.header.Succs {
+			if !l.body[sc] {
+				exit = sc
+			}
+		}
+		cmp, ok := iff.Cond.(*ssa.BinOp)
+		if !ok || cmp.Op != token.LSS || exit == nil {
+			return nil, "a loop of the predicate is not a scan over the bytes of the text"
+		}
+		if lc, ok := cmp.Y.(*ssa.Call); !ok || len(lc.Call.Args) != 1 || lc.Call.Args[0] != ssa.Value(par) {
+			return nil, "a loop of the predicate is not bounded by the length of the text"
+		}
+		var set []byte
+		okLoop := true
+		for b := range l.body {
+			if b == l.header {
+				continue
+			}
+			for _, in := range b.Instrs {
+				switch y := in.(type) {
+				case *ssa.BinOp:
+					if y.Op == token.EQL {
+						if k, ok := constInt(y.Y); ok && k >= 0 && k < 128 {
+							if base, _, isEl := elemLoad(stripConv(y.X)); isEl && base == ssa.Value(par) {
+								set = append(set, byte(k))
+								continue
+							}
+						}
+						okLoop = false
+					} else if y.Op != token.ADD {
+						okLoop = false
+					}
+				case *ssa.If, *ssa.Jump, *ssa.Phi, *ssa.Lookup, *ssa.Index, *ssa.IndexAddr, *ssa.UnOp, *ssa.DebugRef, *ssa.Convert:
+				default:
+					okLoop = false
+				}
+			}
+			// every way out of the loop other than through the header is "return false"
+			for _, sc := range b.Succs {
+				if l.body[sc] {
+					continue
+				}
+				ret, isRet := sc.Instrs[len(sc.Instrs)-1].(*ssa.Return)
+				if !isRet || len(sc.Instrs) != 1 {
+					okLoop = false
+					continue
+				}
+				if t, ok := constBool(ret.Results[0]); !ok || t {
+					okLoop = false
+				}
+			}
+		}
+		if !okLoop || len(set) == 0 {
+			return nil, "a loop of the predicate is not recognised as 'every byte is one of a set of constants'"
+		}
+		l2, err := rx.SearchPattern("every byte in the set", allOf(string(set)))
+		if err != nil {
+			return nil, err.Error()
+		}
+		loopAtom[l.header] = len(tp.atoms)
+		loopExit[l.header] = exit
+		tp.atoms = append(tp.atoms, l2)
+	}
+	// every branch condition outside the loops and every returned value must be evaluable
+	inLoop := map[*ssa.BasicBlock]bool{}
+	for _, l := range naturalLoops(fn) {
+		for b := range l.body {
+			if b != l.header {
+				inLoop[b] = true
+			}
+		}
+	}
+	for _, b := range fn.Blocks {
+		if inLoop[b] {
+			continue
+		}
+		if _, isHdr := loopAtom[b]; isHdr {
+			continue
+		}
+		switch t := b.Instrs[len(b.Instrs)-1].(type) {
+		case *ssa.If:
+			if !classify(t.Cond) {
+				return nil, "a condition of the predicate is not a regular test of the text (" + c.P.InstrPos(t) + ")"
+			}
+		case *ssa.Return:
+			if len(t.Results) != 1 || !classify(t.Results[0]) {
+				return nil, "the predicate returns something other than a combination of regular tests (" + c.P.InstrPos(t) + ")"
+			}
+		}
+	}
+	tp.eval = func(m []bool) bool {
+		var prev *ssa.BasicBlock
+		b := fn.Blocks[0]
+		var val func(v ssa.Value) bool
+		val = func(v ssa.Value) bool {
+			if i, ok := atomOf[v]; ok {
+				return m[i]
+			}
+			switch x := v.(type) {
+			case *ssa.Const:
+				t, _ := constBool(x)
+				return t
+			case *ssa.UnOp:
+				return !val(x.X)
+			case *ssa.Phi:
+				for i, p := range x.Block().Preds {
+					if p == prev {
+						return val(x.Edges[i])
+					}
+				}
+			}
+			return false
+		}
+		for steps := 0; steps < 64; steps++ {
+			if ai, isLoop := loopAtom[b]; isLoop {
+				if !m[ai] {
+					return false
+				}
+				prev, b = b, loopExit[b]
+				continue
+			}
+			switch t := b.Instrs[len(b.Instrs)-1].(type) {
+			case *ssa.Return:
+				// phis of the return block were fixed by prev
+				return val(t.Results[0])
+			case *ssa.If:
+				// evaluate with the block's own phis resolved through prev
+				if val(t.Cond) {
+					prev, b = b, b.Succs[0]
+				} else {
+					prev, b = b, b.Succs[1]
+				}
+			case *ssa.Jump:
+				prev, b = b, b.Succs[0]
+			default:
+				return false
+			}
+		}
+		return false
+	}
+	return tp, ""
+}
